@@ -42,6 +42,15 @@ def run(ctx):
         if hh[0].startswith('CRASH') or hh[1].startswith('CRASH') or hh[0].strip() != hh[1].strip():
             ctx.report('nondeterministic-keyset-history', '%s/%s: 16 gate evaluations under the 128-bit key set give %s when it is the first key set of the process and %s when the thread generated and used the 80-bit key set before: the result depends on which key sets were used earlier' % (be, bu, hh[0][:40], hh[1][:40]),
                        {'case': 'refhash %s %d 1' % (spec, ctx.seed + 21), 'scenario': 'refhash', 'backend': be, 'build': bu})
+        # threads come and go, the main thread never runs a transform; freed memory is overwritten (MALLOC_PERTURB_) so that per-thread FFT
+        # state another thread still relies on does not survive by luck
+        nl = 'nomain %s %d' % (spec, ctx.seed + 23)
+        no = vlib.run_lines(exe, [nl], timeout=3600, env=dict(os.environ, MALLOC_PERTURB_='165'))[0]; ctx.count((be, bu, 'nomain'))
+        nv = ints(no) if not no.startswith('CRASH') and no.strip() else None
+        if nv is None or nv[0] != 0:
+            ctx.report('nondeterministic-thread-lifetimes', '%s/%s: after the set-up thread (key generation, reference outputs) has exited, %s on fresh threads while the main thread never ran a transform' % (
+                be, bu, ('%d of %d evaluations differ from the reference' % (nv[0], nv[1])) if nv else 'the evaluation died (%s)' % no[:60]), {'case': nl, 'scenario': 'nomain', 'backend': be, 'build': bu, 'env': 'MALLOC_PERTURB_=165'})
+        elif nv: ctx.evaluations += nv[1]
         for (name, line), o in zip(scen, outs):
             ctx.count((be, bu, name))
             if o.startswith('CRASH') or not o.strip():
@@ -86,6 +95,6 @@ def run(ctx):
 def replay(ctx, data):
     be = data.get('backend', 'spqlios-fma'); bu = data.get('build', 'optim')
     exe = harness(be, bu) if bu != 'tsan' else vlib.build_harness('eval_drv.cpp', vlib.build_lib('tsan'), be, 'tsan', name='eval_tsan')
-    o = vlib.run_lines(exe, [data['case']], timeout=3600)[0]
+    o = vlib.run_lines(exe, [data['case']], timeout=3600, env=dict(os.environ, MALLOC_PERTURB_='165') if data.get('env') else None)[0]
     print('%s/%s %s -> now: %s' % (be, bu, data['case'][:60], o))
     return 0
